@@ -181,6 +181,16 @@ G8_curve = [
     r('LineSegment3D.split_with_plane', [SEG3, PLANE], name='LineSegment3D_split_with_plane'),
     r('Arc2D.point_at', [ARC2, Q], name='Arc2D_point_at'),
     r('Arc2D.angle', [ARC2], name='Arc2D_angle'),
+    r('Arc2D.length', [ARC2], name='Arc2D_length'),
+    r('Arc2D.point_at_angle', [ARC2, Q], name='Arc2D_point_at_angle'),
+    r('Arc2D.point_at_length', [ARC2, Q], name='Arc2D_point_at_length'),
+    r('Arc3D.angle', [ARC3], name='Arc3D_angle'),
+    r('Arc3D.length', [ARC3], name='Arc3D_length'),
+    r('Arc3D.point_at', [ARC3, Q], name='Arc3D_point_at'),
+    r('Arc3D.point_at_angle', [ARC3, Q], name='Arc3D_point_at_angle'),
+    r('Arc3D.point_at_length', [ARC3, Q], name='Arc3D_point_at_length'),
+    r('LineSegment2D.point_at_length', [SEG2, Q], name='LineSegment2D_point_at_length'),
+    r('LineSegment3D.point_at_length', [SEG3, Q], name='LineSegment3D_point_at_length'),
 ]
 LAYERS.append(('G8_curve', G8_curve))
 
